@@ -123,4 +123,191 @@ Proof.
   destruct fl; vm_compute; reflexivity.
 Qed.
 
+(* D13: after a link is established, an orderly close by the peer leaves an asyncio gateway
+   without link, dial loop or timer *)
+Lemma g_peer_close_orphan : forall fl p, is_async fl = true -> fresh_idle (p_rt p) ->
+  let s1 := fst (gs fl p init AttemptOk) in
+  conn s1 = true /\ Orphan (fst (gs fl p s1 PeerClose)) /\ snd (gs fl p s1 PeerClose) = [LostCb false].
+Proof.
+  intros fl [rt sl] Hfl Hf. unfold fresh_idle in Hf. cbn in Hf.
+  destruct fl; try discriminate; vm_compute; rewrite ?Hf; vm_compute; fin.
+Qed.
+
+(* stop() while the start() coroutine is still dialling: the loop goes on *)
+Lemma g_stop_initial_dial : forall fl p, is_async fl = true ->
+  leb (p_rt p) 0 = false -> leb (add 0 (p_rt p)) (add 0 (p_rt p)) = true ->
+  let s1 := fst (gs fl p init Stop) in
+  let s2 := fst (gs fl p s1 AttemptFail) in
+  snd (gs fl p s2 (Tick (p_rt p))) = [Attempt (zmax (add 0 (p_rt p)) 0)].
+Proof.
+  intros fl [rt sl] Hfl H1 H2. cbn in H1, H2.
+  destruct fl; try discriminate; vm_compute; rewrite ?H1; vm_compute; rewrite ?H2; vm_compute; reflexivity.
+Qed.
+
 End Ctl.
+
+(* ------------------------------------------------------------------ the Z instance *)
+
+Lemma wd_fresh : forall rt, 0 <= rt -> forall n, wd_check rt n n n = WdIdle.
+Proof.
+  intros rt H n. unfold wd_check. change wd_factor with 2.
+  destruct (n + 2 * rt <? n) eqn:E; [apply Z.ltb_lt in E; lia|].
+  destruct (n <=? n + rt) eqn:E2; [reflexivity|apply Z.leb_gt in E2; lia].
+Qed.
+
+Lemma inv_init : forall fl, Inv fl init.
+Proof. intro fl. repeat split; cbn; intros; discriminate. Qed.
+
+Lemma step_inv : forall fl p s e, Inv fl s -> Inv fl (fst (step fl p s e)).
+Proof. intros. apply g_step_inv. assumption. Qed.
+
+Lemma final_cons : forall fl p s e es, final fl p s (e :: es) = final fl p (fst (step fl p s e)) es.
+Proof. reflexivity. Qed.
+
+Lemma final_app : forall fl p es1 es2 s, final fl p s (es1 ++ es2) = final fl p (final fl p s es1) es2.
+Proof. intros. unfold final, gfinal. apply fold_left_app. Qed.
+
+Lemma outputs_cons : forall fl p s e es,
+  outputs fl p s (e :: es) = snd (step fl p s e) ++ outputs fl p (fst (step fl p s e)) es.
+Proof.
+  intros. unfold outputs, goutputs, step. cbn [grun].
+  destruct (gstep Z.add Z.max Z.leb wd_check fl p s e) as [s' o]. reflexivity.
+Qed.
+
+Lemma final_inv : forall fl p es s, Inv fl s -> Inv fl (final fl p s es).
+Proof.
+  induction es as [|e es IH]; intros s H; [exact H|].
+  rewrite final_cons. apply IH, step_inv, H.
+Qed.
+
+Lemma reachable_inv : forall fl p es, Inv fl (final fl p init es).
+Proof. intros. apply final_inv, inv_init. Qed.
+
+Lemma callbacks_step : forall fl p s e, 0 <= p_rt p -> Inv fl s ->
+  cbs (snd (step fl p s e)) = cb_expected (conn s) (conn (fst (step fl p s e))) (loss_exc fl e).
+Proof. intros. apply g_callbacks; [assumption|]. unfold fresh_idle. apply wd_fresh. assumption. Qed.
+
+Lemma filter_made_cbs : forall o, filter is_made (cbs o) = filter is_made o.
+Proof. induction o as [|a o IH]; [reflexivity|]. destruct a; cbn; rewrite ?IH; reflexivity. Qed.
+Lemma filter_lost_cbs : forall o, filter is_lost (cbs o) = filter is_lost o.
+Proof. induction o as [|a o IH]; [reflexivity|]. destruct a; cbn; rewrite ?IH; reflexivity. Qed.
+
+Lemma made_once : forall fl p es s, 0 <= p_rt p -> Inv fl s ->
+  length (filter is_made (outputs fl p s es)) = links_made fl p s es.
+Proof.
+  induction es as [|e es IH]; intros s Hrt H; [reflexivity|].
+  rewrite outputs_cons, filter_app, app_length. cbn [links_made].
+  rewrite (IH _ Hrt (step_inv fl p s e H)). f_equal.
+  rewrite <- filter_made_cbs, (callbacks_step fl p s e Hrt H).
+  destruct (conn s), (conn (fst (step fl p s e))); reflexivity.
+Qed.
+
+Lemma lost_once : forall fl p es s, 0 <= p_rt p -> Inv fl s ->
+  length (filter is_lost (outputs fl p s es)) = links_lost fl p s es.
+Proof.
+  induction es as [|e es IH]; intros s Hrt H; [reflexivity|].
+  rewrite outputs_cons, filter_app, app_length. cbn [links_lost].
+  rewrite (IH _ Hrt (step_inv fl p s e H)). f_equal.
+  rewrite <- filter_lost_cbs, (callbacks_step fl p s e Hrt H).
+  destruct (conn s), (conn (fst (step fl p s e))); reflexivity.
+Qed.
+
+Lemma alternate_expected : forall c c' x l, alternate c (cb_expected c c' x ++ l) = alternate c' l.
+Proof. intros [] [] x l; reflexivity. Qed.
+
+Lemma callbacks_alternate : forall fl p es s, 0 <= p_rt p -> Inv fl s ->
+  alternate (conn s) (cbs (outputs fl p s es)) = true.
+Proof.
+  induction es as [|e es IH]; intros s Hrt H; [reflexivity|].
+  rewrite outputs_cons. unfold cbs. rewrite filter_app. fold (cbs (snd (step fl p s e))).
+  rewrite (callbacks_step fl p s e Hrt H), alternate_expected.
+  apply IH; [assumption|apply step_inv, H].
+Qed.
+
+(* the exc argument: every lost callback of a step carries loss_exc *)
+Lemma lost_exc : forall fl p s e x, 0 <= p_rt p -> Inv fl s ->
+  In (LostCb x) (snd (step fl p s e)) -> x = loss_exc fl e.
+Proof.
+  intros fl p s e x Hrt H Hin.
+  assert (Hc : In (LostCb x) (cbs (snd (step fl p s e)))) by (apply filter_In; split; [exact Hin|reflexivity]).
+  rewrite (callbacks_step fl p s e Hrt H) in Hc. unfold cb_expected in Hc.
+  destruct (negb (conn s) && conn (fst (step fl p s e))); [destruct Hc as [Hc|[]]; discriminate|].
+  destruct (conn s && negb (conn (fst (step fl p s e)))); [|destruct Hc].
+  destruct Hc as [Hc|[]]. congruence.
+Qed.
+
+Lemma reconnect_follows_loss : forall fl p s e, Inv fl s ->
+  conn s = true -> conn (fst (step fl p s e)) = false -> user_event e = false ->
+  (is_async fl = true -> e <> PeerClose) ->
+  ct (fst (step fl p s e)) = CDialing /\ In (Attempt (now (fst (step fl p s e)))) (snd (step fl p s e)).
+Proof. intros. apply g_reconnect; assumption. Qed.
+
+Lemma orphan_run : forall fl p es s, Orphan s -> outputs fl p s es = [].
+Proof.
+  induction es as [|e es IH]; intros s H; [reflexivity|].
+  rewrite outputs_cons. destruct (g_orphan Z.add Z.max Z.leb wd_check fl p s e H) as [H1 H2].
+  unfold step. rewrite H2. apply IH, H1.
+Qed.
+
+Lemma peer_close_dead : forall fl p es, is_async fl = true -> 0 <= p_rt p ->
+  let s1 := fst (step fl p init AttemptOk) in
+  conn s1 = true /\ conn (fst (step fl p s1 PeerClose)) = false /\
+  snd (step fl p s1 PeerClose) = [LostCb false] /\
+  outputs fl p (fst (step fl p s1 PeerClose)) es = [].
+Proof.
+  intros fl p es Hfl Hrt.
+  destruct (g_peer_close_orphan Z.add Z.max Z.leb wd_check fl p Hfl (wd_fresh _ Hrt)) as (H1 & H2 & H3).
+  cbv zeta. repeat split; [exact H1|apply H2|exact H3|apply orphan_run, H2].
+Qed.
+
+(* --- quiet after stop *)
+Lemma quiet_app : forall a b, quiet (a ++ b) = quiet a && quiet b.
+Proof. intros. apply forallb_app. Qed.
+
+Lemma sync_stopped_run : forall fl p es s, is_async fl = false -> SyncStopped s ->
+  quiet (outputs fl p s es) = true.
+Proof.
+  induction es as [|e es IH]; intros s Hfl H; [reflexivity|].
+  rewrite outputs_cons, quiet_app.
+  destruct (g_sync_stopped Z.add Z.max Z.leb wd_check fl p s e Hfl H) as [H1 H2].
+  unfold step. rewrite H2. apply IH; assumption.
+Qed.
+
+Lemma quiet_after_stop_sync : forall fl p s es, is_async fl = false -> Inv fl s ->
+  quiet (outputs fl p (fst (step fl p s Stop)) es) = true.
+Proof. intros. apply sync_stopped_run; [assumption|]. apply g_stop_sync; assumption. Qed.
+
+Lemma quiet_after_stop_async : forall fl p s es, is_async fl = true -> Inv fl s -> stoppable s ->
+  outputs fl p (fst (step fl p s Stop)) es = [].
+Proof. intros. apply orphan_run. apply g_stop_async; assumption. Qed.
+
+Lemma stoppable_run : forall fl p es s, is_async fl = true -> stoppable s -> stoppable (final fl p s es).
+Proof.
+  induction es as [|e es IH]; intros s Hfl H; [exact H|].
+  rewrite final_cons. apply IH; [assumption|]. apply g_stoppable; assumption.
+Qed.
+
+Lemma connected_stoppable : forall fl s, Inv fl s -> conn s = true -> stoppable s.
+Proof. intros fl s (H1 & _) Hc. left. apply H1, Hc. Qed.
+
+Lemma quiet_after_stop_async_connected : forall fl p es0 es1 es2, is_async fl = true ->
+  conn (final fl p init es0) = true ->
+  outputs fl p (fst (step fl p (final fl p init (es0 ++ es1)) Stop)) es2 = [].
+Proof.
+  intros fl p es0 es1 es2 Hfl Hc. apply quiet_after_stop_async; [assumption|apply reachable_inv|].
+  rewrite final_app. apply stoppable_run; [assumption|].
+  apply (connected_stoppable fl); [apply reachable_inv|exact Hc].
+Qed.
+
+Lemma stop_initial_dial_refuted : forall fl p, is_async fl = true -> 0 < p_rt p ->
+  outputs fl p (fst (step fl p init Stop)) [AttemptFail; Tick (p_rt p)] = [Sleep (p_rt p); Attempt (p_rt p)].
+Proof.
+  intros fl p Hfl Hrt.
+  assert (H1 : (p_rt p <=? 0) = false) by (apply Z.leb_gt; lia).
+  assert (H2 : (0 + p_rt p <=? 0 + p_rt p) = true) by (apply Z.leb_refl).
+  pose proof (g_stop_initial_dial Z.add Z.max Z.leb wd_check fl p Hfl H1 H2) as G. cbv zeta in G.
+  rewrite outputs_cons, outputs_cons. unfold step at 4. rewrite G.
+  unfold step. rewrite g_fail_sleeps.
+  - cbn [snd app outputs goutputs grun concat map]. rewrite Z.max_l by lia. reflexivity.
+  - destruct fl; try discriminate; reflexivity.
+Qed.
